@@ -43,6 +43,10 @@ def run(tier, seed, replay=None):
             t, m = tlgen.interval_program(rng)
             planted.append(("interval", t, m))
     free = [("free",) + rgen.free_program(rng, core=(i % 3 != 2)) for i in range(n)]
+    # object-oriented programs: ground truth by exhaustive enumeration of the reference domains (tools/oogen.py)
+    from .. import oogen
+    oo = [oogen.program(rng) for _ in range(n // 3)]
+    oo_truth = [oogen.solutions(m) for _, m in oo]
     truth = smt2.decide([m for _, _, m in free])
     # metamorphic variants of a third of the constraint programs (planted and free)
     bases = [p for p in planted if p[0].startswith("cons")][: n // 3] + free[: n // 3]
@@ -53,6 +57,11 @@ def run(tier, seed, replay=None):
     stats = {}
     try:
         for cfg in e2e.cfgs(tier):
+            oo_outs = e2e.solve_all(cfg, [t for t, _ in oo])
+            for (t, m), o, sols in zip(oo, oo_outs, oo_truth):
+                v = e2e.verdict(o)
+                key = v.split(":")[0]
+                stats[(cfg, "objects-" + ("sat" if sols else "unsat"), key)] = stats.get((cfg, "objects-" + ("sat" if sols else "unsat"), key), 0) + 1
             texts = [p[1] for p in planted] + [p[1] for p in free] + [v[2] for v in var_progs]
             outs = e2e.solve_all(cfg, texts)
             vs = [e2e.verdict(o) for o in outs]
@@ -86,6 +95,9 @@ def run(tier, seed, replay=None):
                 stats[(cfg, "variant-" + vk, "same" if v == bv else ("skip" if "X" in (v[0], bv[0]) else "DIFF"))] = stats.get((cfg, "variant-" + vk, "same" if v == bv else ("skip" if "X" in (v[0], bv[0]) else "DIFF")), 0) + 1
                 if v in ("T", "F") and bv in ("T", "F") and v != bv:
                     note("variant-" + vk, vt, o, f"verdict {v} for the {vk} formulation but {bv} for the base program:\n{bt}")
+            for (t, m), o, sols in zip(oo, oo_outs, oo_truth):
+                if e2e.verdict(o) == "F" and sols:
+                    note("objects", t, o, f"an object-oriented program is rejected as unsolvable although the reference domains admit {sols[0]}")
             for tag, (txt, o, msg) in worst.items():
                 r = e2e.replay_of(txt, cfg, o)
                 rep.violation(f"[{cfg}] {msg[:500]}", r, tags={tag + ":" + cfg})
